@@ -63,9 +63,9 @@ def matmul_batcher_compat(
     a_bd, b_bd = dims
     a_mapped = a_bd is not NOT_MAPPED
     b_mapped = b_bd is not NOT_MAPPED
-    if a_mapped:
+    if a_mapped and a_bd != 0:
         a = jnp.moveaxis(a, a_bd, 0)
-    if b_mapped:
+    if b_mapped and b_bd != 0:
         b = jnp.moveaxis(b, b_bd, 0)
     a_rank = np.ndim(a) - (1 if a_mapped else 0)
     b_rank = np.ndim(b) - (1 if b_mapped else 0)
